@@ -254,6 +254,60 @@ def check_decoder(res, ctx, rng, name):
 STREAM_CASES = []
 
 
+def same_call_on_all_threads(res, ctx, rng, names, n_threads=4, reps=25):
+    """Several OS threads render the SAME call at the same moment, each with its own parser and its own argument words
+    (half of them with the sign bit set): a scratch value that one decoder keeps at module level is only overwritten by
+    another thread that is inside that very decoder.  Every thread shows its own START words."""
+    import sys
+    import threading
+    old = sys.getswitchinterval()
+    sys.setswitchinterval(1e-6)
+    try:
+        for name in names:
+            work = []
+            for k in range(n_threads):
+                rows = []
+                for _ in range(reps):
+                    start, _e = sentinel_start(rng, name)
+                    spec = domain.TABLE.get(name, {})
+                    start = [w ^ (rng.getrandbits(1) << 63) if ('S', i) not in spec else w for i, w in enumerate(start)]
+                    end = [0, rng.getrandbits(64), 0, 0]
+                    try:
+                        rows.append((start, end, render_outer(name, start, end)))
+                    except Exception:
+                        rows = []
+                        break
+                work.append(rows)
+            if not all(work):
+                continue                                    # (judged by check_decoder)
+            failures = []
+            barrier = threading.Barrier(n_threads)
+
+            def worker(k):
+                try:
+                    barrier.wait(timeout=30)
+                    for start, end, want in work[k]:
+                        got = render_outer(name, start, end)
+                        if got != want and len(failures) < 3:
+                            failures.append((start, got, want))
+                except Exception as x:                          # noqa
+                    failures.append((None, f'raised {x!r}', None))
+            threads = [threading.Thread(target=worker, args=(k,), daemon=True) for k in range(n_threads)]
+            for t in threads:
+                t.start()
+            for t in threads:
+                t.join(timeout=120)
+            res.count('calls_rendered_by_all_threads_at_once', n_threads * reps)
+            if failures:
+                start, got, want = failures[0]
+                res.violation('c09-words-of-another-event', f'{name} rendered by {n_threads} OS threads at the same moment (own '
+                              f'parsers, own words): START {[hex(w) for w in start] if start else None} reads {got!r}, '
+                              f'single-threaded {want!r}', {'name': name, 'start': start, 'end': [0, 0, 0, 0]})
+                return
+    finally:
+        sys.setswitchinterval(old)
+
+
 def related_nested(res, ctx, rng):
     """The records a kernel really logs inside a call - those whose name extends the call's name (BSC_pread_extended_info
     in BSC_pread, BSC_mmap_extended_info in BSC_mmap ...) - carrying words TIED to the call: every 4-tuple over the
@@ -311,6 +365,7 @@ def run(ctx):
         if ctx.mine(i):
             check_decoder(res, ctx, rng, name)
     related_nested(res, ctx, rng)
+    same_call_on_all_threads(res, ctx, rng, [n for i, n in enumerate(names) if ctx.mine(i)])
     stream.run_all(res, 'c09', STREAM_CASES, rng, 'call renderings', ctx)
     if ctx.shard == 0:
         s, _ = sentinel_start(core.Ctx('C09', ctx.tier, ctx.seed).rng, 'BSC_pread')
